@@ -154,6 +154,12 @@ var valuePool = []tok{
 	{"tb\\", "", "backslash-end"},
 }
 
+// extension values (LogQLSem.ExtVals): a plain value with something in front of / behind it.  A label regex that matches
+// the plain value must not match them (whole-value matching); an unanchored search, or anchors that bind to the first /
+// last alternative only, do.
+var extSuffixPool = []string{"-gateway", "x", "2", ".z", "$", "|q", " b", "é", ")", "\n"}
+var extPrefixPool = []string{"my", "x-", "0", "^", "a|", "ü", "(", "_."}
+
 // strings that are NOT numbers for toFloat64OrNull / strconv.ParseFloat but look like one
 var nonNumPool = []string{"12abc", "1,5", "5%", "1 2", "v7", "--1", "1.2.3"}
 
@@ -172,23 +178,24 @@ var keyPool = [][3]string{{"fx", "obj", "num"}, {"k", "o", "n"}, {"key_1", "Sub"
 
 // Conc is the concretisation of one case.
 type Conc struct {
-	rng     *rand.Rand
-	Val     map[string]string // value atom -> string
-	ValTag  map[string]string
-	Feat    map[string]tok
-	Name    map[string]string // abstract label name -> concrete
-	KX, KO  string            // JSON keys of x and of the object o
-	KN      string
-	Nums    [4]string
-	FromNs  int64
-	ToNs    int64
-	UnitNs  int64 // one tick in ns for interior ticks
-	Edge    [4]int64
-	NumJSON bool // numeric fields written as JSON numbers (else strings)
-	Tags    []string
-	regexFl map[string]string
-	scale   float64 // unwrap scale (dyadic)
-	metric  bool
+	rng      *rand.Rand
+	Val      map[string]string // value atom -> string
+	ValTag   map[string]string
+	Feat     map[string]tok
+	Name     map[string]string // abstract label name -> concrete
+	KX, KO   string            // JSON keys of x and of the object o
+	KN       string
+	Nums     [4]string
+	FromNs   int64
+	ToNs     int64
+	UnitNs   int64 // one tick in ns for interior ticks
+	Edge     [4]int64
+	NumJSON  bool // numeric fields written as JSON numbers (else strings)
+	Tags     []string
+	regexFl  map[string]string
+	valueRes [][2]string // (regex atom, pattern) of every value regex written into the query text
+	scale    float64     // unwrap scale (dyadic)
+	metric   bool
 }
 
 const baseSec = 1699963200 // 2023-11-14 12:00:00 UTC
@@ -221,6 +228,11 @@ func newConc(c *ACase, seed int64) *Conc {
 		k.Val["n"+strconv.Itoa(i)] = k.Nums[i]
 	}
 	k.Val[""] = ""
+	// extension atoms: drawn from a generator of their own (the draws of the other atoms do not depend on them)
+	xr := rand.New(rand.NewSource(seed*7368787 + int64(c.Idx)*104723 + 11))
+	k.Val["v1s"] = v1.S + pick(xr, extSuffixPool)
+	k.Val["pv2"] = pick(xr, extPrefixPool) + v2.S
+	k.Val["pv1s"] = pick(xr, extPrefixPool) + v1.S + pick(xr, extSuffixPool)
 	// features
 	perm := r.Perm(len(featurePool))
 	for i, f := range []string{"f1", "f2", "f3"} {
@@ -423,10 +435,72 @@ func (k *Conc) valueRegex(atom string) string {
 		alts = append(alts, regexp.QuoteMeta(k.val(v)))
 	}
 	body := strings.Join(alts, "|")
-	if atom == "R_n" || k.rng.Intn(2) == 0 {
-		return "^(?:" + body + ")$"
+	if atom == "R_n" || k.metric {
+		if atom == "R_n" || k.rng.Intn(2) == 0 {
+			return "^(?:" + body + ")$"
+		}
+		return body
 	}
-	return body
+	// every way of writing "exactly one of these values" under whole-value matching: bare, grouped, either order of the
+	// alternatives, with anchors of the user's own on the whole pattern or on single alternatives
+	var re, fl string
+	if len(alts) > 1 {
+		a1, a2 := alts[0], alts[1]
+		if k.rng.Intn(3) == 0 {
+			a1, a2 = a2, a1
+			fl = "swapped-"
+		}
+		switch k.rng.Intn(6) {
+		case 0:
+			re, fl = "^(?:"+a1+"|"+a2+")$", fl+"anchored-group"
+		case 1, 2:
+			re, fl = a1+"|"+a2, fl+"bare-alternation"
+		case 3:
+			re, fl = "("+a1+"|"+a2+")", fl+"capture-group"
+		case 4:
+			re, fl = "^"+a1+"|"+a2+"$", fl+"outer-anchors-on-alternatives"
+		default:
+			re, fl = "^"+a1+"$|^"+a2+"$", fl+"anchored-alternatives"
+		}
+	} else {
+		switch k.rng.Intn(6) {
+		case 0:
+			re, fl = "^(?:"+alts[0]+")$", "anchored-group"
+		case 1, 2:
+			re, fl = alts[0], "bare"
+		case 3:
+			re, fl = "^"+alts[0], "start-anchor-only"
+		case 4:
+			re, fl = alts[0]+"$", "end-anchor-only"
+		default:
+			re, fl = "(?:"+alts[0]+")", "group"
+		}
+	}
+	k.regexFl["val:"+atom] = fl
+	k.valueRes = append(k.valueRes, [2]string{atom, re})
+	return re
+}
+
+// checkValueRegexes: every value regex written for this case, matched against the WHOLE value, accepts exactly the value
+// atoms the specification says (ReVals) among all the value atoms of the case, extensions included.
+func (k *Conc) checkValueRegexes() error {
+	members := map[string][]string{"R_v1": {"v1"}, "R_v2": {"v2"}, "R_v1v2": {"v1", "v2"}}
+	for _, ar := range k.valueRes {
+		re, err := regexp.Compile("^(?:" + ar[1] + ")$")
+		if err != nil {
+			return fmt.Errorf("value regex %q: %v", ar[1], err)
+		}
+		for _, a := range []string{"v1", "v2", "w", "v1s", "pv2", "pv1s", "n0", "n1", "n2", "n3", ""} {
+			want := false
+			for _, m := range members[ar[0]] {
+				want = want || m == a
+			}
+			if re.MatchString(k.Val[a]) != want {
+				return fmt.Errorf("value regex %q (atom %s) on %q (atom %s): whole-value match is %v", ar[1], ar[0], k.Val[a], a, !want)
+			}
+		}
+	}
+	return nil
 }
 
 // ------------------------------------------------ query text -------------------------------------------------
